@@ -90,9 +90,30 @@ def make_config(typ, seq, rate, ovl, aw_req=True, rw=False, indels=True, abs_err
 _adapter_cache = {}
 
 
+class NoPrefilter:
+    """Stands in for adapter.kmer_finder: every read may contain the adapter (the harness' own stub: no private
+    class of the code under test is needed)."""
+    calls = 0
+
+    def kmers_present(self, sequence):
+        NoPrefilter.calls += 1
+        return True
+
+
+def bypass_effective():
+    """Is adapter.kmer_finder what match_to consults?  (If a tree organises the prefilter differently the
+    'without prefilter' observation equals the ordinary one and the differential clause of C07 says nothing.)"""
+    import cutadapt.adapters as A
+    before = NoPrefilter.calls
+    for cls, kw in ((A.BackAdapter, {}), (A.FrontAdapter, {}), (A.AnywhereAdapter, {})):
+        a = cls("ACGTACGTACGGT", max_errors=0.1, min_overlap=3, **kw)
+        a.kmer_finder = NoPrefilter()
+        a.match_to("TTTTTTTTTTTTTTTTTTTTTT")
+    return NoPrefilter.calls > before
+
+
 def observe(cfg, read, want, extra=None):
     """Run the real match_to with and without prefilter; return the event dict (without id)."""
-    from cutadapt.adapters import MockKmerFinder
     k = cfg.key()
     ad = _adapter_cache.get(k)
     if ad is None:
@@ -100,7 +121,7 @@ def observe(cfg, read, want, extra=None):
             _adapter_cache.clear()
         a1 = cfg.build()
         a2 = cfg.build()
-        a2.kmer_finder = MockKmerFinder()
+        a2.kmer_finder = NoPrefilter()
         ad = _adapter_cache[k] = (a1, a2)
     e = cfg.fields()
     e["r"] = codes(read)
@@ -117,8 +138,11 @@ def observe(cfg, read, want, extra=None):
             e["crash" + tag] = crash
         if m is not None:
             e["cls" + tag] = type(m).__name__
-    e["kmers_present"] = bool(ad[0].kmer_finder.kmers_present(
-        read[::-1] if cfg.typ.startswith("RightmostFront") else read))
+    try:
+        e["kmers_present"] = bool(ad[0].kmer_finder.kmers_present(
+            read[::-1] if cfg.typ.startswith("RightmostFront") else read))
+    except Exception:  # noqa  (informational field only)
+        e["kmers_present"] = True
     if extra:
         e.update(extra)
     return e
